@@ -109,6 +109,7 @@ pub fn run_mem(b: &[u8]) -> Vec<u64> {
     // retained memory must not keep growing with the input: the last three quarters add at most 16 KiB,
     // and the total stays under what 8192 handlers of bounded size can hold
     let ok = end <= q + 16384 && peak < 64 * 1024 * 1024;
+    if std::env::var_os("VERIF_MEM_DEBUG").is_some() { eprintln!("MEM packets={} quarter={} end={} peak={}", b.len() / 188, q, end, peak); }
     drop(d);
     vec![ok as u64]
 }
